@@ -31,15 +31,14 @@ def is_clock_read(t):
     return t[0] == "f" and t[2] == "halfmove_clock"
 
 
-def r1_threshold(ctx):
-    rid = "C10.R1"
-    ctx.rule(rid, "a comparison of Bitboard.halfmove_clock with a constant can only be true from 100 plies on (fifty moves by each side)", floor=1)
+def clock_comparisons(ctx):
+    """every comparison between a read of Bitboard.halfmove_clock and a constant in the engine crates:
+    yields (function, block, statement, op as seen from the clock, [(label, value)], cfg, exprs)"""
     prog = ctx.prog
-    n = 0
     for k, f in prog.fns.items():
         if f.get("test") or f["kind"] == "promoted" or f["crate"] not in ("inkayaku_engine_core", "inkayaku_engine_app"):
             continue
-        ex = None
+        ex = cfg = None
         for bi, b in enumerate(f["blocks"]):
             if b["cleanup"]:
                 continue
@@ -56,13 +55,12 @@ def r1_threshold(ctx):
                 op = rv["bop"]
                 if not clock_first:
                     op = {"Ge": "Le", "Gt": "Lt", "Le": "Ge", "Lt": "Gt"}.get(op, op)
-                # candidate constant values: plain constant, or a trait constant evaluated per implementing type
                 cands = []
                 oc = strip_cast(other)
                 if oc[0] != "c":
                     continue
                 if isinstance(oc[1], int) and not isinstance(oc[1], bool):
-                    cands.append(("literal" if not oc[3] else oc[3], oc[1]))
+                    cands.append(((oc[3] or "literal").rsplit("::", 1)[-1], oc[1]))
                 elif oc[3]:
                     path = oc[3]
                     name = path.rsplit("::", 1)[-1]
@@ -71,30 +69,74 @@ def r1_threshold(ctx):
                     for it in impl_types:
                         ov = [c for ck, c in prog.consts.items() if ck.endswith("::" + name) and ("<%s as " % it.rsplit("::", 1)[-1]) in ck]
                         v = ov[0]["value"] if ov else default
-                        cands.append(("%s for %s" % (name, it), v))
+                        cands.append(("%s for %s" % (name, it.rsplit("::", 1)[-1]), v))
                     if not impl_types:
                         cands.append((name, default))
-                for label, v in cands:
-                    n += 1
-                    if not isinstance(v, int):
-                        ctx.lost(rid, "constant %s compared with halfmove_clock in %s could not be evaluated" % (label, k))
-                        continue
-                    # smallest clock value for which the comparison holds
-                    if op == "Ge":
-                        least = v
-                    elif op == "Gt":
-                        least = v + 1
-                    elif op == "Eq":
-                        least = v
-                    else:
-                        least = 0  # <=, <, != hold for small clocks: judged by what they select (not recognised)
-                    ok = least >= 100
-                    ctx.ob(rid, "%s|%s|%s" % (k, op, label.rsplit("::", 1)[-1]), ok,
-                           "" if ok else "%s: `halfmove_clock %s %s` with %s = %d is already true at %d plies (%d moves by each side); the fifty-move rule needs 100 plies"
-                           % (f["display"], {"Ge": ">=", "Gt": ">", "Eq": "==", "Le": "<=", "Lt": "<", "Ne": "!="}[op], label, label, v, least, least // 2),
-                           ctx.where(f, s["line"]), sample={"function": k, "comparison": op, "constant": label, "value": v, "true_from_clock": least})
+                cfg = cfg or Cfg(f)
+                yield f, bi, s, op, cands, cfg, ex
+
+
+def least_true(op, v):
+    """smallest clock value for which `clock op v` holds (None: holds for small clocks)"""
+    return {"Ge": v, "Gt": v + 1, "Eq": v}.get(op)
+
+
+def true_region(f, cfg, ex, bi, s):
+    """blocks dominated by the true successor of the switch that consumes the comparison result"""
+    dst = s["dst"]["l"] if s["dst"] is not None and not s["dst"]["p"] else None
+    for b in sorted(cfg.reach):
+        t = f["blocks"][b]["term"]
+        if t["k"] == "switch" and len(t["targets"]) == 1 and t["discr"].get("k") in ("copy", "move") and t["discr"]["pl"]["l"] == dst and cfg.dominates(bi, b):
+            head = t["otherwise"]
+            return b, head, {x for x in cfg.reachable_from(head) if cfg.dominates(head, x)}
+    return None, None, set()
+
+
+def region_calls(f, region):
+    out = []
+    for x in sorted(region):
+        t = f["blocks"][x]["term"]
+        if t["k"] == "call":
+            out.append(t["callee"].get("orig") or t["callee"].get("key") or "?")
+    return out
+
+
+def r1_threshold(ctx):
+    rid = "C10.R1"
+    ctx.rule(rid, "a comparison of Bitboard.halfmove_clock with a constant that selects the draw score (fifty-move rule) can only be true from 100 plies on", floor=1)
+    ctx.rule("C10.R5", "a half-move-clock guard in front of the repetition test must let every clock value >= 8 through (a third occurrence needs two 4-ply cycles)", floor=0)
+    n = 0
+    for f, bi, s, op, cands, cfg, ex in clock_comparisons(ctx):
+        sw, head, region = true_region(f, cfg, ex, bi, s)
+        calls = region_calls(f, region)
+        selects_draw = any(c.endswith("::draw_score") for c in calls)
+        guards_repetition = any(c.endswith("ZobristHistory::count_repetitions") for c in calls)
+        # also: short-circuit `clock > K && count_repetitions(..) >= 3`: the repetition call sits in the true region
+        for label, v in cands:
+            if not isinstance(v, int):
+                ctx.lost(rid, "constant %s compared with halfmove_clock in %s could not be evaluated" % (label, f["key"]))
+                continue
+            least = least_true(op, v)
+            if guards_repetition:
+                ok = least is not None and least <= 8
+                ctx.ob("C10.R5", "%s|%s|%s" % (f["key"], op, label), ok,
+                       "" if ok else "%s: the repetition test is only reached when `halfmove_clock %s %s` (= %d): %s, but a position can occur for the third time as early as 8 plies after the last capture or pawn move (clock 0, 4, 8)"
+                       % (f["display"], {"Ge": ">=", "Gt": ">", "Eq": "==", "Le": "<=", "Lt": "<", "Ne": "!="}[op], label, v, "first true at clock %d" % least if least is not None else "an upper bound on the clock"),
+                       ctx.where(f, s["line"]), sample={"function": f["key"], "guard": "%s %s" % (op, v), "first_clock_let_through": least})
+                continue
+            if not selects_draw:
+                ctx.notes.append("%s: comparison `halfmove_clock %s %s` selects neither the draw score nor the repetition test; not judged" % (f["key"], op, label))
+                continue
+            n += 1
+            if least is None:
+                least = 0
+            ok = least >= 100
+            ctx.ob(rid, "%s|%s|%s" % (f["key"], op, label.split(" for ")[-1]), ok,
+                   "" if ok else "%s: `halfmove_clock %s %s` with %s = %d selects the draw score already at %d plies (%d moves by each side); the fifty-move rule needs 100 plies"
+                   % (f["display"], {"Ge": ">=", "Gt": ">", "Eq": "==", "Le": "<=", "Lt": "<", "Ne": "!="}[op], label, label, v, least, least // 2),
+                   ctx.where(f, s["line"]), sample={"function": f["key"], "comparison": op, "constant": label, "value": v, "true_from_clock": least})
     if n == 0:
-        ctx.lost(rid, "no comparison of halfmove_clock with a constant found in the engine crates")
+        ctx.lost(rid, "no comparison of halfmove_clock with a constant that selects the draw score found in the engine crates")
 
 
 def call_blocks(f, cfg, key):
